@@ -95,3 +95,29 @@ Proof. split; [exact loopG_wf|]. split; [reflexivity|]. split; [exact loop2_feas
 Example C04_search_example :
   mfdc_solve (fun k => if k <? 3 then Infeasible else Optimal) (fun _ => false) None 2 5 = Solved 3.
 Proof. reflexivity. Qed.
+
+(* ---- audit (audit/props_C04_C06_C09_C16.md): instances of the exact hypotheses that no Example reached ---- *)
+From FP Require Import AuditExamples17.
+(* all five hypotheses of C04_small_flow_on_cycle_edge_is_infeasible hold on the self-loop with flow 1/4 (and its LP is infeasible) *)
+Example C04_small_flow_hypotheses_satisfiable :
+  c_scale_free quarter_loop = false /\ In (0, 0)%N (kept_edges quarter_loop) /\ is_scc_edge (c_graph quarter_loop) (0, 0)%N = true /\
+  In (0, 0)%N (map fst (c_flow quarter_loop)) /\ (0 < flow_of quarter_loop (0, 0)%N < 1)%Q /\
+  forall a, ~ sat a (encode_kfdc quarter_loop).
+Proof. exact small_flow_hypotheses. Qed.
+Print Assumptions C04_small_flow_hypotheses_satisfiable.
+(* all seven hypotheses of C04_search_returns_least_feasible_k (solver specification included) with feasible j := 3 <= j *)
+Example C04_search_hypotheses_satisfiable :
+  (forall j, ex_out j = Optimal <-> 3 <= j) /\ (forall j, ex_out j = Infeasible <-> ~ 3 <= j) /\
+  (forall j : nat, (fun _ : nat => false) j = false) /\ (forall g, @None nat = Some g -> 3 <= g) /\
+  3 <= 3 /\ (forall j, j < 3 -> ~ 3 <= j) /\ 2 <= 3 <= 5 /\
+  mfdc_solve ex_out (fun _ => false) None 2 5 = Solved 3.
+Proof. exact search_min_hypotheses. Qed.
+Print Assumptions C04_search_hypotheses_satisfiable.
+(* all hypotheses of C04_search_inconclusive_gives_no_answer: the run for k = 3 ends with an inconclusive status *)
+Example C04_search_inconclusive_hypotheses_satisfiable :
+  2 <= 3 <= 5 /\
+  (forall j, 2 <= j < 3 -> ex_out2 j = Infeasible /\ (fun _ : nat => false) j = false /\ uses_given None j = false) /\
+  ((fun _ : nat => false) 3 = true \/ (ex_out2 3 = Other /\ uses_given None 3 = false)) /\
+  mfdc_solve ex_out2 (fun _ => false) None 2 5 = Unsolved.
+Proof. exact search_inconclusive_hypotheses. Qed.
+Print Assumptions C04_search_inconclusive_hypotheses_satisfiable.
